@@ -156,32 +156,42 @@ def run(chk):
     # shift amount: max(0, 8*len(truncated digest) - bit_length(order)) - derived from the byte
     # length of the digest (leading zero bits count), not from the value
     okshift = bool(it.watch_returns[q])
+
+    def lin_of_key(k):
+        return Lin({a_: b_ for a_, b_ in k[0]}, k[1])
     for v, s in it.watch_returns[q]:
-        t = v.lin.single_sym() if isinstance(v, VInt) else None
-        if not (t and t[0] == "shr"):
+        if not isinstance(v, VInt):
             okshift = False
             continue
-        src = dict((a.t, b) for a, b in t[1][0])
-        ints = [k for k in src if k[0] == "int_of"]
-        amount = dict((a.t, b) for a, b in t[2][0])
-        mx = [k for k in amount if k[0] == "max"]
-        if len(ints) != 1 or len(mx) != 1 or amount[mx[0]] != 1:
+        t = v.lin.single_sym()
+        if t and t[0] == "shr":
+            src, amt = lin_of_key(t[1]), lin_of_key(t[2])
+        else:
+            src, amt = v.lin, Lin.const(0)
+        st_ = src.single_sym()
+        if not (st_ and st_[0] == "int_of" and st_[1][0] == "hex"):
             okshift = False
             continue
-        X = ints[0][1][1]                      # the bytes the integer was read from
-        args = mx[0][1:]
-        zero = Lin.const(0).key()
-        other = [a for a in args if a != zero]
-        if zero not in args or len(other) != 1:
+        X = st_[1][1]                          # the bytes the integer was read from
+        # E = 8 * len(X) - bit_length(order): the bit-length symbol is looked up among the terms of the state
+        cand = set()
+        for l_ in list(s.cons.ges) + [amt]:
+            for k_ in l_.co:
+                for sub in subterms(k_.t):
+                    if isinstance(sub, tuple) and sub and sub[0] == "bit_length":
+                        cand.add(sub)
+        blsyms = []
+        for c_ in cand:
+            inner = dict((a_.t, b_) for a_, b_ in c_[1][0])
+            if any(k_[0] == "call" and k_[2] == "order" for k_ in inner) and len(inner) == 1 and c_[1][1] == 0:
+                blsyms.append(c_)
+        if len(blsyms) != 1:
             okshift = False
             continue
-        co = dict((a.t, b) for a, b in other[0][0])
-        want_len = ("len", X)
-        bl = [k for k in co if k[0] == "bit_length"]
-        okshift &= co.get(want_len) == 8 and len(bl) == 1 and co[bl[0]] == -1 and len(co) == 2 and other[0][1] == 0
-        if bl:
-            inner = dict((a.t, b) for a, b in bl[0][1][0])
-            okshift &= any(k[0] == "call" and k[2] == "order" for k in inner) and len(inner) == 1
+        E = Lin.sym(("len", X)).scale(8) - Lin.sym(blsyms[0])
+        am = amt.single_sym()
+        is_max = bool(am) and am[0] == "max" and sorted(map(repr, am[1:])) == sorted(map(repr, [Lin.const(0).key(), E.key()]))
+        okshift &= is_max or (s.proves_eq(amt - E) and s.proves_ge(E)) or (amt == Lin.const(0) and s.proves_ge(-E))
     chk.ob("R03.3", "converter: e = int(digest') >> max(0, 8*len(digest') - bit_length(order)) (shift from the byte length, not from the value)", okshift, loc=q, key="C03|R03.3|shift",
            detail="the truncation shift is not max(0, 8*len(digest) - bit_length(order)) of the bytes that were converted")
 
